@@ -49,6 +49,9 @@ def run_one(patch, tier, seed, plans):
                 if "edge_program" in c:
                     minim.append({"class": d["class"], "edge_program": c["edge_program"], "table": (d.get("evidence") or {}).get("table")})
                     continue
+                if "fwd_unit" in c:
+                    minim.append({"class": d["class"], "fwd_unit": c["fwd_unit"], "toolchain": c["toolchain"]})
+                    continue
                 if "header_alone" in c:
                     minim.append({"class": d["class"], "header": c["header_alone"], "toolchain": c["toolchain"]})
                     continue
